@@ -169,6 +169,25 @@ fn main() {
             c.all_laws(&mut g, &v, true);
         }
     }
+    // directed string values: one character from every UTF-8 lead-byte class (incl. the last
+    // 3-byte lead 0xEF: U+F000..U+FFFF) at the end of the string, before another non-ASCII
+    // character and before a character that needs a JSON escape
+    {
+        let cps: [u32; 14] = [0x7F, 0x80, 0x7FF, 0x800, 0xD7FF, 0xE000, 0xEFFF, 0xF000, 0xF8FF, 0xFEFF, 0xFF21, 0xFFFD, 0xFFFF, 0x10FFFF];
+        let mut vals: Vec<V> = vec![];
+        for &cp in cps.iter() {
+            let ch = char::from_u32(cp).unwrap();
+            vals.push(V::s(&format!("{ch}")));
+            vals.push(V::s(&format!("a{ch}")));
+            vals.push(V::s(&format!("{ch}\u{e9}")));
+            vals.push(V::s(&format!("{ch}\"x")));
+            vals.push(V::s(&format!("{ch}\n{ch}")));
+        }
+        let arr: V = vals.clone().into();
+        for v in vals.iter().chain(std::iter::once(&arr)) {
+            c.all_laws(&mut g, v, false);
+        }
+    }
     let laws = c.laws.clone();
     let n = c.t.finish();
     println!("\nSUMMARY {}", json!({"events": n, "values": values, "value_nodes": shapes, "laws": laws}));
